@@ -776,6 +776,13 @@ func (e *Env) evalCall(n *ECall) (Val, error) {
 			return intVal(ite(eq(a.Tm, "0"), "0", app(f.mapLenFn(t), app("select", f.hs.read(e.heap, dk), a.Tm)))), nil
 		}
 		return Val{}, fmt.Errorf("len of %s", a.T)
+	case "chancap":
+		// chancap(ch): the buffer size the channel was made with (ghost set at make)
+		a := args[0]
+		if _, ok := a.T.Underlying().(*types.Chan); !ok {
+			return Val{}, fmt.Errorf("chancap of %s", a.T)
+		}
+		return intVal(f.ghostAt(e.heap, chanCapGhost(a.T), sortInt, a.Tm)), nil
 	case "isNaN":
 		return boolVal(app("fp.isNaN", args[0].Tm)), nil
 	case "isInf":
